@@ -280,6 +280,43 @@ def run(ctx):
         except Exception as e:
             stats["generator_vs_rdflib_mismatch"] += 1
             viol.append({"what": "rdflib rejects a generated document (generator bug, not a finding): %s" % str(e)[:100], "doc": text})
+    # prefixes declared again with another namespace in the middle of the document (concatenated dumps): tokens already seen under the
+    # first binding must be read under the second one afterwards; the reference is rdflib's parse of the same text
+    stats["redeclared_prefix_documents"] = 0
+    redecl = []
+    for i in range(60 if ctx.tier == "quick" else 800):
+        groups = gen_groups(rng, small=rng.random() < 0.5)
+        toks = token_stream(rng, groups, False)
+        part1 = header(rng, False) + layout(rng, toks)
+        labels = rng.sample(['ex', 'e', 'ext', 'rdfs', '', 'dtp'], rng.randint(1, 3))
+        again = "".join('@prefix %s: <http://second.example.org/%s/> .\n' % (l, l or 'empty') for l in labels)
+        same = layout(rng, toks) if rng.random() < 0.7 else layout(rng, token_stream(rng, groups, False))
+        redecl.append(part1 + again + same)
+    for text in redecl:
+        stats["redeclared_prefix_documents"] += 1
+        try:
+            ref = anon(rdflib_triples(text))
+        except Exception as e:
+            viol.append({"what": "rdflib rejects a generated document (generator bug, not a finding): %s" % str(e)[:100], "doc": text})
+            continue
+        r = read_impl(text)
+        if r[0] != 'ok' or set(map(repr, anon(r[1]))) != set(map(repr, ref)):     # rdflib's graph is a set: repeated statements count once
+            viol.append({"what": "prefix declared again: the reader %s" % ("raised / hung: " + r[0] if r[0] != 'ok' else "yields other triples than a standard parser"),
+                         "doc": text, "got": r[1][:8], "rdflib": ref[:8]})
+    if ctx.driver_ok and redecl:
+        lines = []
+        for k, text in enumerate(redecl):
+            for ln in (text[:-1] if text.endswith("\n") else text).split("\n"):
+                lines.append("NT\t" + ln.replace("\t", "\\t"))
+            lines.append("RUN\tttldoc\tr%d" % k)
+        mres2 = model.run_driver(lines)
+        for k, text in enumerate(redecl):
+            r = read_impl(text)
+            got = ["T\t%s\t%s\t%s\t%s\t%s" % (s_[0], s_[1], p_, o_[0], o_[1]) for s_, p_, o_ in r[1]] if r[0] == 'ok' else ["HANG"] if r[0] == 'hang' else ["EXC\t" + r[0].split(':')[1]]
+            if mres2.get("r%d" % k, []) != got:
+                dis.append({"what": "Ttl.readLines (model) vs BigTtlTriplesYielder on a document that declares a prefix twice", "doc": text,
+                            "model": mres2.get("r%d" % k, [])[:6], "impl": got[:6]})
+                break
     # outside the dialect: raise, or yield what a standard parser yields
     for name, text in OUTSIDE:
         r = read_impl(text)
@@ -303,4 +340,4 @@ def run(ctx):
                            "documents rendered from abstract statement groups (';' and ',' abbreviations, 'a' vs rdf:type, prefixed / <absolute> / "
                            "<relative-to-@base> IRIs, blank nodes, literals with escapes and '#', ';', ',', '.' inside, language tags, datatypes as <IRI> / "
                            "xsd: / custom prefix, untyped integers with and without sign) by a layout generator (blanks, tabs, line breaks at any token boundary, trailing and "
-                           "whole-line comments); every line-break placement for documents of <= %d tokens; %d documents outside the dialect" % (9 if ctx.tier == "quick" else 12, len(OUTSIDE)), DEPS)
+                           "whole-line comments); documents that declare prefixes again with another namespace half-way (against rdflib); every line-break placement for documents of <= %d tokens; %d documents outside the dialect" % (9 if ctx.tier == "quick" else 12, len(OUTSIDE)), DEPS)
